@@ -1,0 +1,15 @@
+//go:build verif
+
+package kafka
+
+// Add-only export file for the verification harness in /verif (build tag
+// "verif"): the effective (defaulted) configuration of a Writer.
+
+import "time"
+
+// VerifWriterEffective returns the values the Writer actually works with: the
+// configured fields passed through the defaulting accessors.
+func VerifWriterEffective(w *Writer) (batchSize int, batchBytes int64, maxAttempts int, batchTimeout, backoffMin, backoffMax, readTimeout, writeTimeout time.Duration) {
+	return w.batchSize(), w.batchBytes(), w.maxAttempts(), w.batchTimeout(),
+		w.writeBackoffMin(), w.writeBackoffMax(), w.readTimeout(), w.writeTimeout()
+}
